@@ -46,6 +46,10 @@ def run(ctx, driver):
     concur.explore(ctx, rec, ID, {"p_fault": 0.05, "p_cancel": 0.05, "pool_timeout": 4.0, "gate_close": True, "p_conn_close": 0.4,
                                   "max_connections": 1}, 60, 800, ["C05:"])
     concur.explore(ctx, rec, ID, {"p_fault": 0.1, "p_cancel": 0.1, "http2": True, "max_connections": 1, "p_conn_close": 0.0}, 60, 800, ["C05:"])
+    # HTTP/2, nothing going wrong: responses that have been received in full are held open while further requests start on the same
+    # connection, and are closed afterwards (h2 forgets a finished stream as soon as another one sends its head)
+    concur.explore(ctx, rec, ID, {"p_fault": 0.0, "p_cancel": 0.0, "http2": True, "max_connections": 1, "p_conn_close": 0.0, "p_hold": 0.6,
+                                  "callers": 4, "kind": "direct", "origins": 1}, 40, 800, ["C05:"])
     import wrapb
     wrapb.run(rec, driver)
     return rec.finish("C05 sweeps + explorer", sweeprun.RULE)
